@@ -614,18 +614,21 @@ def parseFault (doc : Xml) : Option (Except Unit (Option Nat)) :=
       | none => some (.error ())
 
 /-- `_parse_response_args` (strict): the result dict in Python's insertion order -/
+def respStep (fs : Facts) (act : SAct) (acc : Except String (List (Str × Val))) (e : Xml) :
+    Except String (List (Str × Val)) :=
+  match acc with
+  | .error x => .error x
+  | .ok d =>
+    if e.tag.ns ≠ [] then .error "UpnpError" else
+    match act.outs.find? (fun a => a.name = e.tag.name) with
+    | none => .error "UpnpError"
+    | some a =>
+      match inp fs a.var.dtype (e.text.getD []) with
+      | none => .error "ValueError"
+      | some v => .ok (PyDict.set d e.tag.name v)
+
 def responseDict (fs : Facts) (act : SAct) (kids : List Xml) : Except String (List (Str × Val)) :=
-  kids.foldl (fun acc e =>
-    match acc with
-    | .error x => .error x
-    | .ok d =>
-      if e.tag.ns ≠ [] then .error "UpnpError" else
-      match act.outs.find? (fun a => a.name = e.tag.name) with
-      | none => .error "UpnpError"
-      | some a =>
-        match inp fs a.var.dtype (e.text.getD []) with
-        | none => .error "ValueError"
-        | some v => .ok (PyDict.set d e.tag.name v)) (.ok [])
+  kids.foldl (respStep fs act) (.ok [])
 
 /-- how the client sees the server's outcome: status + body (parsed if it is XML) -/
 def wire (o : Outcome) : Nat × Option Xml :=
